@@ -197,11 +197,12 @@ def task_mutants(spec, summ):
 
 ENUM_VOCAB = [("PUSH", "0"), ("PUSH", "1"), ("DUP1", None), ("DUP2", None), ("SWAP1", None), ("POP", None), ("ADD", None), ("SUB", None),
               ("MUL", None), ("AND", None), ("OR", None), ("XOR", None), ("NOT", None), ("ISZERO", None), ("EQ", None), ("LT", None),
-              ("GT", None), ("DIV", None), ("MLOAD", None), ("MSTORE", None), ("SLOAD", None), ("SSTORE", None), ("SHL", None), ("EXP", None)]
+              ("GT", None), ("DIV", None), ("MLOAD", None), ("MSTORE", None), ("SLOAD", None), ("SSTORE", None), ("SHL", None), ("EXP", None),
+              ("MSTORE8", None), ("KECCAK256", None)]
 ENUM_TASKS = len(ENUM_VOCAB)
 SIMILAR = {"ADD": "SUB", "SUB": "ADD", "LT": "GT", "GT": "LT", "AND": "OR", "OR": "XOR", "XOR": "OR", "MUL": "ADD", "DIV": "MUL", "EQ": "LT",
            "NOT": "ISZERO", "ISZERO": "NOT", "MSTORE": "SSTORE", "SSTORE": "MSTORE", "MLOAD": "SLOAD", "SLOAD": "MLOAD", "DUP1": "DUP2", "DUP2": "DUP1",
-           "SHL": "EXP", "EXP": "SHL", "PUSH": None}
+           "SHL": "EXP", "EXP": "SHL", "PUSH": None, "MSTORE8": "MSTORE", "KECCAK256": "ADD"}
 
 
 def task_enum(spec, summ):
@@ -225,6 +226,13 @@ def task_enum(spec, summ):
         if len(m) == len(b) and legal(m, evm.stack_need_and_delta(b)[0]):
             pairs.append([ta, AJ.items_to_text(m, 2)])
             meta.append((b, m, "subst-last"))
+        # ... and with the block whose first pushed constant is another one (an operand of whatever consumes it changes)
+        for k, (nm, vv) in enumerate(b[:-1]):
+            if nm == "PUSH":
+                m2 = b[:k] + [("PUSH", "1" if vv == "0" else "0")] + b[k + 1:]
+                pairs.append([ta, AJ.items_to_text(m2, 2)])
+                meta.append((b, m2, "flip-push"))
+                break
     summ["probes"]["enumerated_blocks"] = len(blocks)
     return judge_pairs(spec, summ, flags, pairs, meta)
 
